@@ -39,11 +39,34 @@ func c19Scratch() string {
 	if base == "" {
 		base = "/verif/work"
 	}
+	if abs, err := filepath.Abs(base); err == nil {
+		base = abs
+	}
 	d := filepath.Join(base, fmt.Sprintf("c19-%d-%d", os.Getpid(), n))
 	if err := os.MkdirAll(d, 0o755); err != nil {
 		panic(err)
 	}
 	return d
+}
+
+// c19Spellings are spellings of the directory /S/c19root (S = the scratch directory); all but the first
+// are not in filepath.Clean form.
+var c19Spellings = []string{
+	"/S/c19root",
+	"/S/c19root/",
+	"/S/c19root//",
+	"/S//c19root",
+	"/S/c19root/.",
+	"/S/./c19root",
+	"/S/c19root/../c19root",
+	"/S/x/../c19root", // x need not exist: DirFiles and filepath.Join clean lexically
+	"/S/.//c19root/./.",
+	"/S/c19root/./",
+}
+
+// c19Spell substitutes the real (clean, absolute) scratch directory for the symbolic /S.
+func c19Spell(scratch, sp string) string {
+	return scratch + strings.TrimPrefix(sp, "/S")
 }
 
 // c19Open builds the in-memory `open` of a pair list: the first pair with the name; a name without a
@@ -264,6 +287,30 @@ func init() {
 		}
 		return c19Res(dirhash.HashDir(root, prefix, dirhash.Hash1))
 	}
+	// DirFiles / HashDir called with a (possibly unclean) spelling of the directory: the op carries the
+	// spelling over the symbolic scratch directory /S, e.g. /S/c19root/, /S//c19root, /S/c19root/../c19root.
+	impls["dirhash.dirfilesat"] = func(a []string) string {
+		sp, kind, prefix, rels := unhx(a[0]), a[1], unhx(a[2]), unhxList(a[3])
+		scratch := c19Scratch()
+		defer os.RemoveAll(scratch)
+		if err := c19MakeTree(filepath.Join(scratch, "c19root"), kind, rels, nil); err != nil {
+			return "err:setup"
+		}
+		files, err := dirhash.DirFiles(c19Spell(scratch, sp), prefix)
+		if err != nil {
+			return c19Err(err)
+		}
+		return hxList(files)
+	}
+	impls["dirhash.hashdirat"] = func(a []string) string {
+		sp, kind, prefix, rels, contents := unhx(a[0]), a[1], unhx(a[2]), unhxList(a[3]), unhxList(a[4])
+		scratch := c19Scratch()
+		defer os.RemoveAll(scratch)
+		if err := c19MakeTree(filepath.Join(scratch, "c19root"), kind, rels, contents); err != nil {
+			return "err:setup"
+		}
+		return c19Res(dirhash.HashDir(c19Spell(scratch, sp), prefix, dirhash.Hash1))
+	}
 	impls["dirhash.hashzip"] = func(a []string) string {
 		names, contents := unhxList(a[0]), unhxList(a[1])
 		scratch := c19Scratch()
@@ -451,6 +498,17 @@ func c19GenTree(r *Rand, elems []string, fold bool) []string {
 var c19Prefixes = []string{"", ".", "..", "./a", "a/", "a//b", "a/../b", "/", "/abs", "a/.", "../x", "x/..", "a/./b", "//a", "a\nb", "é", "../a/..", "a", "b",
 	"./", "a/b/../..", "mod@v1", ".a", "..a", "../..", "../../a", "/..", "/../a", "a/../../b", "x/."}
 
+// c19GenSpelling: mostly an unclean spelling of /S/c19root, sometimes the clean one or a missing path.
+func c19GenSpelling(r *Rand) string {
+	switch r.Intn(12) {
+	case 0:
+		return c19Spellings[0]
+	case 1:
+		return r.Pick([]string{"/S/nope/", "/S/c19root/nope/..//nope"})
+	}
+	return c19Spellings[1+r.Intn(len(c19Spellings)-1)]
+}
+
 func c19GenPrefix(r *Rand) string {
 	switch r.Intn(10) {
 	case 0, 1, 2:
@@ -532,6 +590,10 @@ func genC19(g *Gen, n int) {
 	g.Emit("dirhash.hash1 "+hxList([]string{""})+" "+hxList([]string{""}), true, "boundary")
 	g.Emit("dirhash.hashzip _ _", true, "boundary")
 	g.Emit("dirhash.hashdir dir - _ _", true, "boundary")
+	for _, sp := range c19Spellings {
+		g.Emit("dirhash.dirfilesat "+hx(sp)+" dir "+hx("m@v1.0.0")+" "+hxList([]string{"a.go", "sub/b.go"}), true, "boundary", "dirfilesat")
+		g.Emit("dirhash.hashdirat "+hx(sp)+" dir "+hx("m@v1.0.0")+" "+hxList([]string{"a.go", "sub/b.go"})+" "+hxList([]string{"x", ""}), true, "boundary", "hashdirat")
+	}
 	g.Emit("dirhash.sha256 -", true, "boundary")
 	g.Emit("dirhash.sha256 "+hx("abc"), true, "boundary")
 	for g.st.Ops < n {
@@ -577,15 +639,26 @@ func genC19(g *Gen, n int) {
 				kind = g.Pick([]string{"missing", "file"})
 			}
 			rels := c19GenTree(g.Rand, c19FsElems, false)
-			g.Emit("dirhash.dirfiles "+kind+" "+hx(c19GenPrefix(g.Rand))+" "+hxList(rels), len(rels) >= 2 || kind != "dir", "dirfiles", "root-"+kind)
+			pfx := c19GenPrefix(g.Rand)
+			g.Emit("dirhash.dirfiles "+kind+" "+hx(pfx)+" "+hxList(rels), len(rels) >= 2 || kind != "dir", "dirfiles", "root-"+kind)
+			if g.Chance(60) { // the same directory under another spelling of its path
+				sp := c19GenSpelling(g.Rand)
+				g.Emit("dirhash.dirfilesat "+hx(sp)+" "+kind+" "+hx(pfx)+" "+hxList(rels), len(rels) >= 1 || kind != "dir", "dirfilesat", "spelling:"+sp)
+			}
 		case 13, 14, 15:
 			kind := "dir"
 			if g.Chance(6) {
 				kind = g.Pick([]string{"missing", "file"})
 			}
 			rels := c19GenTree(g.Rand, c19FsElems, false)
-			g.Emit("dirhash.hashdir "+kind+" "+hx(c19GenPrefix(g.Rand))+" "+hxList(rels)+" "+hxList(c19GenContents(g.Rand, len(rels))),
+			pfx, contents := c19GenPrefix(g.Rand), c19GenContents(g.Rand, len(rels))
+			g.Emit("dirhash.hashdir "+kind+" "+hx(pfx)+" "+hxList(rels)+" "+hxList(contents),
 				len(rels) >= 2 || kind != "dir", "hashdir", "root-"+kind)
+			if g.Chance(60) {
+				sp := c19GenSpelling(g.Rand)
+				g.Emit("dirhash.hashdirat "+hx(sp)+" "+kind+" "+hx(pfx)+" "+hxList(rels)+" "+hxList(contents),
+					len(rels) >= 1 || kind != "dir", "hashdirat", "spelling:"+sp)
+			}
 		case 16, 17: // raw archive: arbitrary entry names, duplicates, directory entries
 			names, contents := c19GenSet(g.Rand, g.Chance(30))
 			tags := []string{"rawzip"}
@@ -778,6 +851,58 @@ func oracleC19(g *Gen, n int) {
 	}
 }
 
+// c19Guard runs f, turning a panic into an error.
+func c19Guard(f func() error) (err error) {
+	defer func() {
+		if r := recover(); r != nil {
+			err = fmt.Errorf("panic: %v", r)
+		}
+	}()
+	return f()
+}
+
+// c19OracleSpellings checks DirFiles/HashDir on every spelling of dir (= scratch/c19root) that the
+// operating system confirms to denote the same directory. It reports false after a failure.
+func c19OracleSpellings(g *Gen, scratch, dir, prefix, hz string, errz error, replayBase string, rels, contents []string) bool {
+	ref, err := os.Stat(dir)
+	if err != nil {
+		return true
+	}
+	var want []string
+	if e := c19Guard(func() (e error) { want, e = dirhash.DirFiles(dir, prefix); return }); e != nil {
+		g.Fail("DirFiles fails on the directory a module zip was extracted to", e.Error(), replayBase)
+		return false
+	}
+	for _, sp := range c19Spellings[1:] {
+		spelled := c19Spell(scratch, sp)
+		fi, err := os.Stat(spelled)
+		if err != nil || !os.SameFile(ref, fi) {
+			continue // not a spelling of the same directory on this system (e.g. /S/x/.. with x absent)
+		}
+		g.Case("zip-dir-agree-spelling")
+		info := fmt.Sprintf("directory spelled %q (same file as %q)", sp, "/S/c19root")
+		replayAt := "dirhash.hashdirat " + hx(sp) + " dir " + hx(prefix) + " " + hxList(rels) + " " + hxList(contents)
+		replayFiles := "dirhash.dirfilesat " + hx(sp) + " dir " + hx(prefix) + " " + hxList(rels)
+		var got []string
+		if e := c19Guard(func() (e error) { got, e = dirhash.DirFiles(spelled, prefix); return }); e != nil {
+			g.Fail("DirFiles fails or panics on an unclean spelling of the extraction directory", info+": "+e.Error(), replayFiles, replayAt)
+			return false
+		}
+		if strings.Join(got, "\x00") != strings.Join(want, "\x00") {
+			g.Fail("DirFiles lists different names for two spellings of the same directory", info, replayFiles, replayAt)
+			return false
+		}
+		var hd string
+		e := c19Guard(func() (e error) { hd, e = dirhash.HashDir(spelled, prefix, dirhash.Hash1); return })
+		if e != nil || errz != nil || hd != hz {
+			g.Fail("HashZip of a module zip differs from HashDir of the directory it extracts to (unclean spelling of the directory path)",
+				fmt.Sprintf("%s: zip=%q,%v dir=%q,%v", info, hz, errz, hd, e), replayAt, replayBase)
+			return false
+		}
+	}
+	return true
+}
+
 // c19OracleZipDir: HashZip(zip.Create(files)) == HashDir(zip.Unzip(...), prefix) for the prefix
 // "path@version" (with and without the trailing slash), also for zip.CreateFromDir.
 func c19OracleZipDir(g *Gen) {
@@ -817,6 +942,11 @@ func c19OracleZipDir(g *Gen) {
 		return
 	}
 	prefix := m.Path + "@" + m.Version
+	// every spelling of the extraction directory denotes the same directory (os.SameFile), so DirFiles
+	// must list the same names and HashDir must equal HashZip for each of them, without error or panic.
+	if !c19OracleSpellings(g, scratch, dir, prefix, hz, errz, replay2, rels, contents) {
+		return
+	}
 	for _, p := range []string{prefix, prefix + "/"} {
 		hd, errd := dirhash.HashDir(dir, p, dirhash.Hash1)
 		if errz != nil || errd != nil || hz != hd {
